@@ -1,12 +1,33 @@
 (** [MapPollard.Modify] without additions, i.e. [remove] ([Model.MapMut]: [remove], [removeSingle],
-    [forgetBelow], [moveUpDescendants], [updateHashes], [forgetUnneededDel]) preserves the tie
-    between the map forest and the reference forest (property C09, deletions).
+    [forgetBelow], [moveUpDescendants], [updateHashes], [forgetUnneededDel], [prunePosition]) keeps
+    the tie between the map forest and the reference forest (property C09, deletions), for full and
+    for partial forests and for every allocated height [TreeRows n <= ms_total <= 63].
 
-    The invariant [Inv s R m] strengthens [consistent] of [Proofs.MapReadSpec] ([Inv_consistent]):
-    the keys of the two maps are pairwise distinct, the live leaves are pairwise distinct and no
-    live leaf is a [hash2] image ("no collision between a leaf and an inner node"), every
-    remembered leaf is stored WITH the [remember] flag, and the siblings along the path of every
-    remembered leaf are stored (clause (iii) of [consistent] without [known_set]). *)
+    The invariant [Inv s R m] (= [Inv2 s R R m]) strengthens [consistent] of [Proofs.MapReadSpec]
+    ([Inv_consistent]; the empty forest satisfies it: [Inv_empty]; [Invb]/[Invb_sound] decide it):
+    the keys of the two maps are pairwise distinct; the live leaves are pairwise distinct, none is
+    the empty hash and none is a [hash2] image ("no collision between a leaf and an inner node":
+    a stored inner node whose hash were a cached leaf hash would have its cached position
+    overwritten by [moveUpDescendants]); every stored binding is the hash of the node at its
+    position; the cached map binds exactly [R] to the positions of the leaf nodes; the roots are
+    stored; every remembered leaf is stored WITH the [remember] flag ([prunePosition] reads it); the
+    siblings along the path of every remembered leaf are stored (clause (iii) of [consistent]
+    without [known_set]).  [Inv2 s Rc Rn m] separates the cached leaves [Rc] from the flagged ones
+    [Rn]: between [uncacheLeaves] and the last [removeSingle] of a block they differ.
+
+    Theorems (all closed under the global context, for every [H], [HO] with a correct [op_eqb]):
+    - [removeSingle_node]: one [removeSingle] on the position of ANY node [x] of the layout all of
+      whose leaves are un-cached and at least one of which is flagged deletes the whole subtree:
+      [Inv2 (kill L s) Rc (Rn - L)] ([L] = the leaves below [x]).  [removeSingle_inner]: [x] has a
+      sibling, whose subtree moves up one row ([kill_inner]: the layout after the deletion;
+      [moveUpDescendants_spec], [uh_chain], [fud_node_Inv2]); [sr_Inv]: [x] is a root.
+    - G1 [mm_modify_delete1]: a block that deletes one remembered leaf.
+    - G2 [mm_modify_delete_leaves]: a block that deletes any set of distinct remembered leaves, the
+      hashes and the targets in any order ([remove_fold]: the detwinned targets one after the other;
+      [detwinned_general]: [deTwin] yields the roots of the maximal deleted subtrees, in row-major
+      order); [mm_modify_delete_hashes]: the targets as [GetLeafHashPositions] reports them.
+    - [prunePosition_Inv2], [del_Inv2]: pruning at a node that is no root keeps the invariant.
+    Not proved here: that nothing beyond the allowed positions stays stored (tidiness). *)
 From Utreexo Require Import Base.Hash Model.Utils Model.UtilsFast Model.Verify Model.MapRead
   Model.MapMut Spec.Forest Spec.Oracle Spec.Geometry
   Proofs.UtilsGeom Proofs.UtilsGeom2 Proofs.SpecBasics Proofs.StumpAdd Proofs.LayoutStruct
@@ -3863,3 +3884,845 @@ Section RemoveFold.
       + rewrite <- (kill_kill H HO), filter_keep_app. exact Ir.
   Qed.
 End RemoveFold.
+(** * 17. [remove] of several remembered leaves *)
+Section RemoveLeaves.
+  Variable H : Type.
+  Variable HO : ops H.
+  Hypothesis HOK : ops_ok HO.
+  Notation keep L := (fun h => negb (memH HO h L)).
+
+  Lemma kill_ext A B (s : slots H) : (forall h, In (Some h) s -> memH HO h A = memH HO h B) ->
+    kill HO A s = kill HO B s.
+  Proof.
+    intros E. unfold kill. apply map_ext_in. intros [h|] Hin; [|reflexivity]. rewrite (E h Hin). reflexivity.
+  Qed.
+
+  Lemma filter_keep_ext A B (R : list H) : (forall h, In h R -> memH HO h A = memH HO h B) ->
+    filter (keep A) R = filter (keep B) R.
+  Proof. intros E. apply filter_ext_in. intros h Hh. rewrite (E h Hh). reflexivity. Qed.
+
+  (** the targets, sorted and translated *)
+  Lemma translate_nodes s Rc Rn m (l : list (node H)) : Inv2 HO s Rc Rn m ->
+    (forall x, In x l -> In x (layout HO s)) ->
+    (if ms_total m =? TreeRows (ms_n m) then map (npos (rows_of (num_leaves s))) l
+     else translatePositions (map (npos (rows_of (num_leaves s))) l) (TreeRows (ms_n m)) (ms_total m))
+    = map (fun x : node H => gp (ms_total m) (nrow x) (noff x)) l.
+  Proof.
+    intros I Hl. induction l as [|x l IH].
+    - destruct (ms_total m =? TreeRows (ms_n m)); reflexivity.
+    - pose proof (target_translate H HO s Rc Rn m x I (Hl x (or_introl eq_refl))) as E1.
+      specialize (IH (fun y Hy => Hl y (or_intror Hy))).
+      destruct (ms_total m =? TreeRows (ms_n m)).
+      + cbn [map]. injection E1 as E1. rewrite E1, IH. reflexivity.
+      + unfold translatePositions in *. cbn [map] in *. injection E1 as E1. rewrite E1, IH. reflexivity.
+  Qed.
+
+  Definition npl (s : slots H) (a b : node H) : Prop :=
+    npos (rows_of (num_leaves s)) a < npos (rows_of (num_leaves s)) b.
+
+  (** what [deTwin] must deliver for the sorted leaf nodes [ls] *)
+  Definition detwinned (s : slots H) (T : N) (xs ls ys : list (node H)) : Prop :=
+    deTwin (map (fun x : node H => gp T (nrow x) (noff x)) ls) T =
+      map (fun x : node H => gp T (nrow x) (noff x)) ys /\
+    (forall y, In y ys -> In y (layout HO s) /\
+       exists z, In z (layout HO s) /\ nleaf z = true /\ under (coord y) (coord z)) /\
+    (forall w, In w (layout HO s) -> nleaf w = true ->
+       ((exists y, In y ys /\ under (coord y) (coord w)) <-> In w xs)) /\
+    ForallOrdPairs indep ys.
+
+  Lemma sorted_nodes s (ls : list (node H)) : (forall x, In x ls -> In x (layout HO s)) -> NoDup ls ->
+    StronglySorted N.le (map (npos (rows_of (num_leaves s))) ls) -> StronglySorted (npl s) ls.
+  Proof.
+    induction ls as [|a l IH]; intros Hls Hnd Hs; [constructor|].
+    cbn [map] in Hs. inversion Hs as [|? ? Hs' Hall]; subst. inversion Hnd as [|? ? Hna Hnd']; subst.
+    constructor; [apply IH; [intros x Hx; apply Hls; right; exact Hx|exact Hnd'|exact Hs']|].
+    rewrite Forall_forall in *. intros b Hb. unfold npl.
+    pose proof (Hall _ (in_map _ _ _ Hb)) as Hle.
+    destruct (N.eq_dec (npos (rows_of (num_leaves s)) a) (npos (rows_of (num_leaves s)) b)) as [E|E]; [|lia].
+    exfalso. apply Hna.
+    rewrite (RefTheory.layout_npos_inj H HO s a b (Hls a (or_introl eq_refl)) (Hls b (or_intror Hb)) E).
+    exact Hb.
+  Qed.
+
+  Theorem remove_leaves s R m xs dels targets proof : Inv HO s R m -> NoDup xs ->
+    (forall x, In x xs -> In x (layout HO s) /\ nleaf x = true /\ In (nhash x) R) ->
+    (forall h, In h dels <-> exists x, In x xs /\ nhash x = h) ->
+    Permutation targets (map (npos (rows_of (num_leaves s))) xs) ->
+    (forall ls, Permutation xs ls -> StronglySorted (npl s) ls ->
+       exists ys, detwinned s (ms_total m) xs ls ys) ->
+    exists m', mm_modify HO m [] dels targets proof = Some m' /\
+               Inv HO (kill HO dels s) (filter (keep dels) R) m'.
+  Proof.
+    intros I Hnd Hxs Hdels Hperm Hdt. unfold Inv in *.
+    (* the sorted targets *)
+    assert (Hp2 : Permutation (sortN targets) (map (npos (rows_of (num_leaves s))) xs)).
+    { eapply Permutation_trans; [apply pps_sortN_perm|exact Hperm]. }
+    destruct (Permutation_map_inv _ _ Hp2) as (ls & Els & Pls).
+    assert (Hls : forall x, In x ls -> In x (layout HO s)).
+    { intros x Hx. apply (Permutation_in _ (Permutation_sym Pls)) in Hx. apply Hxs, Hx. }
+    assert (Sls : StronglySorted (npl s) ls).
+    { apply sorted_nodes; [exact Hls|exact (Permutation_NoDup Pls Hnd)|].
+      rewrite <- Els. apply pps_sortN_sorted. }
+    destruct (Hdt ls Pls Sls) as (ys & Edt & Hys & Hcover & Hfop).
+    pose proof (translate_nodes s R R m ls I Hls) as Etr. rewrite <- Els in Etr.
+    destruct m as [nd ca n T full]. cbn [ms_n ms_total ms_nodes ms_cached ms_full] in *.
+    pose proof (i_live_nd I) as Hlnd.
+    (* all the deleted hashes are cached *)
+    assert (Hall : forallb (cached_has HO ca) dels = true).
+    { apply forallb_forall. intros h Hh. apply Hdels in Hh as (x & Hx & <-).
+      destruct (Hxs x Hx) as (Hxl & Lx & Hr). unfold cached_has.
+      assert (E : cached_get HO ca (nhash x) = Some (gp T (nrow x) (noff x))).
+      { apply (i_cached I). split; [exact Hr|]. exists x. auto. }
+      cbn [ms_cached] in E. rewrite E. reflexivity. }
+    pose proof (uncache_Inv2 H HO HOK dels s R R nd ca n T full I) as I1.
+    (* the deleted leaves, by their hashes *)
+    assert (Hdel_leaf : forall w, In w (layout HO s) -> nleaf w = true ->
+              (memH HO (nhash w) dels = true <-> In w xs)).
+    { intros w Hw Lw. rewrite (memH_In H HO HOK), Hdels. split.
+      - intros (x & Hx & E). destruct (Hxs x Hx) as (Hxl & Lx & _).
+        rewrite <- (live_leaf_unique H HO s x w Hlnd Hxl Hw Lx Lw E). exact Hx.
+      - intros Hx. exists w. auto. }
+    assert (Hok : okseq H HO s (filter (keep dels) R) R ys).
+    { split; [|exact Hfop]. intros y Hy. destruct (Hys y Hy) as (Hyl & z & Hz & Lz & Uz).
+      split; [exact Hyl|]. split.
+      - exists z. split; [exact Hz|]. split; [exact Lz|]. split; [exact Uz|].
+        assert (Hzx : In z xs) by (apply (Hcover z Hz Lz); exists y; auto).
+        apply Hxs, Hzx.
+      - intros w Hw Lw Uw Hin. apply filter_In in Hin as [_ Hm].
+        assert (Hwx : In w xs) by (apply (Hcover w Hw Lw); exists y; auto).
+        apply (Hdel_leaf w Hw Lw) in Hwx. rewrite Hwx in Hm. discriminate. }
+    destruct (remove_fold H HO HOK (filter (keep dels) R) ys s R nd _ n T full I1 Hok)
+      as (Lt & nd' & ca' & Ef & Hspec & I2).
+    assert (Ememb : forall h, In (Some h) s -> memH HO h Lt = memH HO h dels).
+    { intros h Hh. destruct (live_leaf_in_layout H HO s h Hh) as (w & Hw & Lw & <-).
+      pose proof (Hspec w Hw Lw) as S1. pose proof (Hcover w Hw Lw) as S2.
+      pose proof (Hdel_leaf w Hw Lw) as S3.
+      destruct (memH HO (nhash w) Lt), (memH HO (nhash w) dels); try reflexivity.
+      - assert (In w xs) by (apply S2, S1; reflexivity). assert (false = true) by (apply S3; assumption). discriminate.
+      - assert (In w xs) by (apply S3; reflexivity). assert (false = true) by (apply S1, S2; assumption). discriminate. }
+    rewrite (kill_ext Lt dels s Ememb) in I2.
+    rewrite (filter_keep_ext Lt dels R) in I2 by (intros h Hh; apply Ememb, (i_Rn I h Hh)).
+    exists (mkM nd' ca' n T full). split; [|exact I2].
+    unfold mm_modify, MapMut.remove. cbn [ms_n ms_total ms_nodes ms_cached ms_full].
+    rewrite Hall. cbn [negb]. rewrite Etr, Edt.
+    match goal with |- context [add_all _ _ _ _ _ ?st] =>
+      replace st with (nd', ca') by (symmetry; exact Ef) end.
+    reflexivity.
+  Qed.
+End RemoveLeaves.
+
+(** * 18. [deTwin] *)
+Lemma deTwin_loop_id fr : forall (fuel i : nat) l,
+  (forall j a b, nth_error l j = Some a -> nth_error l (S j) = Some b -> rightSib a <> b) ->
+  deTwin_loop fuel i l fr = l.
+Proof.
+  induction fuel as [|f IH]; intros i l Hno; [reflexivity|]. cbn [deTwin_loop].
+  destruct (nth_error l i) as [a|] eqn:Ea; [|reflexivity].
+  destruct (nth_error l (S i)) as [b|] eqn:Eb; [|reflexivity].
+  destruct (N.eqb_spec (rightSib a) b) as [E|_]; [exfalso; exact (Hno i a b Ea Eb E)|].
+  apply IH, Hno.
+Qed.
+
+Section DeTwinLeaves.
+  Variable H : Type.
+  Variable HO : ops H.
+  Hypothesis HOK : ops_ok HO.
+  Variable s : slots H.
+  Variable T : N.
+  Hypothesis Hn63 : N.of_nat (length s) <= 2 ^ 63.
+  Hypothesis HTlo : TreeRows (N.of_nat (length s)) <= T.
+  Hypothesis HT63 : T <= 63.
+  Notation lay := (layout HO s).
+  Notation gpx := (fun x : node H => gp T (nrow x) (noff x)).
+
+  (** the order of the positions does not depend on the height *)
+  Lemma npl_rows a b : In a lay -> In b lay -> npl H s a b ->
+    gp T (nrow a) (noff a) < gp T (nrow b) (noff b) /\ (nrow a <= nrow b)%nat.
+  Proof.
+    intros Ha Hb Hlt. unfold npl, npos in Hlt. rewrite !LayoutStruct.pos_gpos in Hlt.
+    rewrite (pc_rows_of H s) in Hlt.
+    destruct (ng_valid_min H HO s T Hn63 HTlo HT63 a Ha) as [A1 A2].
+    destruct (ng_valid_min H HO s T Hn63 HTlo HT63 b Hb) as [B1 B2].
+    pose proof (gpos_lt_transfer _ T _ _ _ _ HTlo A1 A2 B1 B2 Hlt) as Hlt'. split; [exact Hlt'|].
+    apply gpos_lt_lex in Hlt; try assumption. lia.
+  Qed.
+
+  (** two nodes whose positions are twins are siblings (or equal) *)
+  Lemma twins_coord a b : In a lay -> In b lay ->
+    rightSib (gp T (nrow a) (noff a)) = gp T (nrow b) (noff b) ->
+    b = a \/ (coord b = (nrow a, N.lxor (noff a) 1) /\ N.even (noff a) = true).
+  Proof.
+    intros Ha Hb E. destruct (ng_valid H HO s T Hn63 HTlo HT63 a Ha) as [A1 A2].
+    destruct (ng_valid H HO s T Hn63 HTlo HT63 b Hb) as [B1 B2].
+    unfold gp in E. rewrite rightSib_gpos in E by exact A1.
+    pose proof (lor_1 (noff a)) as Hl. pose proof (lxor_1 (noff a)) as Hx.
+    destruct (N.even (noff a)) eqn:Ev.
+    - right. split; [|reflexivity].
+      assert (Hv : N.lor (noff a) 1 < 2 ^ (T - N.of_nat (nrow a))).
+      { destruct (N.eq_dec (N.of_nat (nrow a)) T) as [Et|Et].
+        - exfalso. rewrite Et, N.sub_diag in A2. change (2 ^ 0) with 1 in A2.
+          assert (noff a = 0) by lia.
+          (* the only position of the top row has no right sibling in the frame *)
+          rewrite Et in E. rewrite Hl in E.
+          assert (Hr : gpos T T (noff a + 1) = 2 ^ (T + 1) - 1).
+          { unfold gpos, gstart. replace (T + 1 - T) with 1 by lia. change (2 ^ 1) with 2.
+            pose proof (UtilsGeom.pow2_pos T). rewrite UtilsGeom.pow2_S. lia. }
+          pose proof (gpos_range T _ _ B1 B2) as Hrange. rewrite <- E, Hr in Hrange.
+          pose proof (UtilsGeom.pow2_pos T). rewrite UtilsGeom.pow2_S in Hrange. lia.
+        - apply sib_offsets_lt; [lia|exact A2]. }
+      destruct (gpos_inj T _ _ _ _ A1 Hv B1 B2 E) as [Er Eo]. unfold coord.
+      rewrite Hx, <- Hl. f_equal; [lia|congruence].
+    - left. rewrite Hl in E. destruct (gpos_inj T _ _ _ _ A1 A2 B1 B2 E) as [Er Eo].
+      symmetry. apply (ng_coord_eq H HO s a b Ha Hb). unfold coord. f_equal; [lia|exact Eo].
+  Qed.
+
+  Lemma SS_nth {A} (R : A -> A -> Prop) (l : list A) : StronglySorted R l ->
+    forall j a b, nth_error l j = Some a -> nth_error l (S j) = Some b -> R a b.
+  Proof.
+    induction 1 as [|x l Hs IH Hall]; intros j a b Ea Eb; [destruct j; discriminate|].
+    destruct j as [|j]; cbn [nth_error] in Ea, Eb.
+    - injection Ea as <-. rewrite Forall_forall in Hall. apply Hall.
+      destruct l as [|y l']; [discriminate|]. cbn in Eb. injection Eb as <-. left. reflexivity.
+    - exact (IH j a b Ea Eb).
+  Qed.
+
+  Lemma SS_FOP {A} (R Q : A -> A -> Prop) (l : list A) : StronglySorted R l ->
+    (forall a b, In a l -> In b l -> R a b -> Q a b) -> ForallOrdPairs Q l.
+  Proof.
+    induction 1 as [|x l Hs IH Hall]; intros HQ; [constructor|].
+    constructor.
+    - rewrite Forall_forall in *. intros b Hb. apply HQ; [left; reflexivity|right; exact Hb|apply Hall, Hb].
+    - apply IH. intros a b Ha Hb. apply HQ; right; assumption.
+  Qed.
+
+  (** no two of the leaves are siblings: [deTwin] changes nothing *)
+  Theorem detwinned_leaves xs ls : Permutation xs ls -> StronglySorted (npl H s) ls ->
+    (forall x, In x xs -> In x lay /\ nleaf x = true) ->
+    (forall a b, In a xs -> In b xs -> coord b <> (nrow a, N.lxor (noff a) 1)) ->
+    detwinned H HO s T xs ls ls.
+  Proof.
+    intros Pls Sls Hxs Hnotw.
+    assert (Hls : forall x, In x ls -> In x lay /\ nleaf x = true /\ In x xs).
+    { intros x Hx. apply (Permutation_in _ (Permutation_sym Pls)) in Hx.
+      destruct (Hxs x Hx). auto. }
+    split; [|split; [|split]].
+    - unfold deTwin. apply deTwin_loop_id. intros j pa pb Ea Eb Etw.
+      rewrite nth_error_map in Ea, Eb.
+      destruct (nth_error ls j) as [a|] eqn:Eja; [|discriminate].
+      destruct (nth_error ls (S j)) as [b|] eqn:Ejb; [|discriminate].
+      cbn [option_map] in Ea, Eb. injection Ea as <-. injection Eb as <-.
+      destruct (Hls a (nth_error_In _ _ Eja)) as (Ha & _ & Hax).
+      destruct (Hls b (nth_error_In _ _ Ejb)) as (Hb & _ & Hbx).
+      pose proof (SS_nth _ _ Sls j a b Eja Ejb) as Hlt.
+      destruct (twins_coord a b Ha Hb Etw) as [->|[Ec _]].
+      + unfold npl in Hlt. lia.
+      + exact (Hnotw a b Hax Hbx Ec).
+    - intros y Hy. destruct (Hls y Hy) as (Hyl & Ly & _). split; [exact Hyl|].
+      exists y. split; [exact Hyl|]. split; [exact Ly|apply under_refl].
+    - intros w Hw Lw. split.
+      + intros (y & Hy & U). destruct (Hls y Hy) as (Hyl & Ly & Hyx).
+        rewrite (ng_leaf_bottom H HO s T Hn63 HTlo HT63 y w Hyl Hw Ly U). exact Hyx.
+      + intros Hwx. exists w. split; [exact (Permutation_in _ Pls Hwx)|apply under_refl].
+    - apply (SS_FOP _ _ _ Sls). intros a b Ha Hb Hlt.
+      destruct (Hls a Ha) as (Hal & La & Hax). destruct (Hls b Hb) as (Hbl & Lb & Hbx).
+      destruct (npl_rows a b Hal Hbl Hlt) as [_ Hr].
+      assert (Hne : a <> b) by (intros ->; unfold npl in Hlt; lia).
+      split; [|split; [|split]].
+      + intros U. apply Hne. symmetry. exact (ng_leaf_bottom H HO s T Hn63 HTlo HT63 a b Hal Hbl La U).
+      + intros U. apply Hne. exact (ng_leaf_bottom H HO s T Hn63 HTlo HT63 b a Hbl Hal Lb U).
+      + exact (Hnotw a b Hax Hbx).
+      + exact Hr.
+  Qed.
+End DeTwinLeaves.
+
+Section DeleteLeavesNoSib.
+  Variable H : Type.
+  Variable HO : ops H.
+  Hypothesis HOK : ops_ok HO.
+
+  (** ** G2, leaves no two of which are siblings: any order of the hashes and of the targets *)
+  Theorem mm_modify_delete_leaves_nosib s R m xs dels targets proof : Inv HO s R m -> NoDup xs ->
+    (forall x, In x xs -> In x (layout HO s) /\ nleaf x = true /\ In (nhash x) R) ->
+    (forall a b, In a xs -> In b xs -> coord b <> (nrow a, N.lxor (noff a) 1)) ->
+    (forall h, In h dels <-> exists x, In x xs /\ nhash x = h) ->
+    Permutation targets (map (npos (rows_of (num_leaves s))) xs) ->
+    exists m', mm_modify HO m [] dels targets proof = Some m' /\
+               Inv HO (kill HO dels s) (filter (fun h => negb (memH HO h dels)) R) m'.
+  Proof.
+    intros I Hnd Hxs Hns Hdels Hperm.
+    apply (remove_leaves H HO HOK s R m xs dels targets proof I Hnd Hxs Hdels Hperm).
+    intros ls Pls Sls. exists ls.
+    apply (detwinned_leaves H HO s (ms_total m) (pi_n63 H HO s R R m I) (pi_Tlo H HO s R R m I) (i_T63 I));
+      try assumption.
+    intros x Hx. destruct (Hxs x Hx) as (A & B & _). auto.
+  Qed.
+End DeleteLeavesNoSib.
+
+(** * 19. [deTwin] in general: the roots of the maximal deleted subtrees *)
+Lemma SS_app_intro {A} (R : A -> A -> Prop) l1 l2 : StronglySorted R l1 -> StronglySorted R l2 ->
+  (forall x y, In x l1 -> In y l2 -> R x y) -> StronglySorted R (l1 ++ l2).
+Proof.
+  intros S1 S2 Hc. induction S1 as [|x l S1 IH Hall]; [exact S2|]. cbn [app]. constructor.
+  - apply IH. intros a b Ha Hb. apply Hc; [right; exact Ha|exact Hb].
+  - rewrite Forall_forall in *. intros y Hy. apply in_app_or in Hy as [Hy|Hy]; [apply Hall, Hy|].
+    apply Hc; [left; reflexivity|exact Hy].
+Qed.
+
+Lemma SS_app_elim {A} (R : A -> A -> Prop) l1 l2 : StronglySorted R (l1 ++ l2) ->
+  StronglySorted R l1 /\ StronglySorted R l2 /\ (forall x y, In x l1 -> In y l2 -> R x y).
+Proof.
+  induction l1 as [|a l1 IH]; cbn [app]; intros S.
+  - split; [constructor|]. split; [exact S|]. intros x y [].
+  - inversion S as [|? ? S' Hall]; subst. destruct (IH S') as (A1 & A2 & A3).
+    rewrite Forall_forall in Hall. split; [|split; [exact A2|]].
+    + constructor; [exact A1|]. rewrite Forall_forall. intros y Hy. apply Hall, in_or_app. left. exact Hy.
+    + intros x y [<-|Hx] Hy; [apply Hall, in_or_app; right; exact Hy|exact (A3 x y Hx Hy)].
+Qed.
+
+Lemma nth_split2 {A} (l : list A) i a b : nth_error l i = Some a -> nth_error l (S i) = Some b ->
+  l = firstn i l ++ a :: b :: skipn (S (S i)) l /\ length (firstn i l) = i.
+Proof.
+  revert i. induction l as [|x l IH]; intros i Ea Eb; [destruct i; discriminate|].
+  destruct i as [|i].
+  - cbn in Ea. injection Ea as ->. destruct l as [|y l]; [discriminate|]. cbn in Eb. injection Eb as ->.
+    split; reflexivity.
+  - cbn [nth_error] in Ea, Eb. destruct (IH i Ea Eb) as [E L]. cbn [firstn skipn app length].
+    split; [f_equal; exact E|f_equal; exact L].
+Qed.
+
+Lemma insertInOrder_app l1 l2 e : (forall y, In y l1 -> y <= e) ->
+  insertInOrder (l1 ++ l2) e = l1 ++ insertInOrder l2 e.
+Proof.
+  induction l1 as [|y l1 IH]; intros Hle; [reflexivity|]. cbn [app insertInOrder].
+  destruct (N.ltb_spec e y) as [Lt|_]; [pose proof (Hle y (or_introl eq_refl)); lia|].
+  f_equal. apply IH. intros z Hz. apply Hle. right. exact Hz.
+Qed.
+
+Section DeTwinGen.
+  Variable H : Type.
+  Variable HO : ops H.
+  Hypothesis HOK : ops_ok HO.
+  Variable s : slots H.
+  Variable T : N.
+  Hypothesis Hn63 : N.of_nat (length s) <= 2 ^ 63.
+  Hypothesis HTlo : TreeRows (N.of_nat (length s)) <= T.
+  Hypothesis HT63 : T <= 63.
+  Notation lay := (layout HO s).
+  Notation gpx := (fun x : node H => gp T (nrow x) (noff x)).
+
+  Definition pl (a b : node H) : Prop := gp T (nrow a) (noff a) < gp T (nrow b) (noff b).
+
+  Fixpoint insN (p : node H) (l : list (node H)) : list (node H) :=
+    match l with
+    | [] => [p]
+    | y :: t => if gp T (nrow p) (noff p) <? gp T (nrow y) (noff y) then p :: l else y :: insN p t
+    end.
+
+  Lemma insN_map p l : map gpx (insN p l) = insertInOrder (map gpx l) (gpx p).
+  Proof.
+    induction l as [|y l IH]; [reflexivity|]. cbn [insN map insertInOrder].
+    destruct (gp T (nrow p) (noff p) <? gp T (nrow y) (noff y)); [reflexivity|].
+    cbn [map]. f_equal. exact IH.
+  Qed.
+
+  Lemma insN_In p l x : In x (insN p l) <-> x = p \/ In x l.
+  Proof.
+    induction l as [|y l IH]; cbn [insN In]; [intuition congruence|].
+    destruct (gp T (nrow p) (noff p) <? gp T (nrow y) (noff y)); cbn [In]; [intuition congruence|].
+    rewrite IH. intuition congruence.
+  Qed.
+
+  Lemma insN_length p l : length (insN p l) = S (length l).
+  Proof.
+    induction l as [|y l IH]; [reflexivity|]. cbn [insN].
+    destruct (gp T (nrow p) (noff p) <? gp T (nrow y) (noff y)); cbn [length]; [reflexivity|].
+    rewrite IH. reflexivity.
+  Qed.
+
+  Lemma insN_sorted p l : StronglySorted pl l ->
+    (forall y, In y l -> gp T (nrow y) (noff y) <> gp T (nrow p) (noff p)) -> StronglySorted pl (insN p l).
+  Proof.
+    intros S Hne. induction S as [|y l S IH Hall]; [repeat constructor|]. cbn [insN].
+    rewrite Forall_forall in Hall.
+    destruct (N.ltb_spec (gp T (nrow p) (noff p)) (gp T (nrow y) (noff y))) as [Lt|Ge].
+    - constructor; [constructor; [exact S|rewrite Forall_forall; exact Hall]|].
+      rewrite Forall_forall. intros z [<-|Hz]; [exact Lt|]. unfold pl in *. specialize (Hall z Hz). lia.
+    - constructor; [apply IH; intros z Hz; apply Hne; right; exact Hz|].
+      rewrite Forall_forall. intros z Hz. apply insN_In in Hz as [->|Hz]; [|exact (Hall z Hz)].
+      unfold pl. pose proof (Hne y (or_introl eq_refl)). lia.
+  Qed.
+
+  Lemma insN_head p l x : nth_error (insN p l) 0 = Some x ->
+    x = p \/ nth_error l 0 = Some x.
+  Proof.
+    destruct l as [|y l]; cbn [insN]; [cbn; intros [= <-]; left; reflexivity|].
+    destruct (gp T (nrow p) (noff p) <? gp T (nrow y) (noff y)); cbn; intros [= <-]; auto.
+  Qed.
+
+  (** the sibling coordinate of a root holds no node *)
+  Lemma sib_nonroot a b : In a lay -> In b lay -> coord b = (nrow a, N.lxor (noff a) 1) -> nroot a = false.
+  Proof.
+    intros Ha Hb Eb. destruct (nroot a) eqn:Ra; [exfalso|reflexivity].
+    pose proof (node_is_root_c H HO s a Ha) as Hr. rewrite Ra in Hr.
+    pose proof (node_in_forest H HO s b Hb) as Hf. destruct (coord_eq _ _ _ Eb) as [Er Eo].
+    rewrite Er, Eo in Hf. exact (pps_root_sib_out _ _ _ Hr Hf).
+  Qed.
+
+  Variable xs : list (node H).
+
+  (** the invariant of the loop of [deTwin]: the current list are the positions of nodes [C] *)
+  Record psi (C : list (node H)) : Prop := mkPsi {
+    ps_sorted : StronglySorted pl C;
+    ps_node : forall c, In c C -> In c lay /\
+      (exists z, In z lay /\ nleaf z = true /\ under (coord c) (coord z)) /\
+      (forall w, In w lay -> nleaf w = true -> under (coord c) (coord w) -> In w xs);
+    ps_cover : forall w, In w xs -> exists c, In c C /\ under (coord c) (coord w);
+    ps_disj : forall c1 c2, In c1 C -> In c2 C -> c1 <> c2 -> ~ under (coord c1) (coord c2) }.
+
+  Definition notwin_before (i : nat) (C : list (node H)) : Prop :=
+    forall j a b, (j < i)%nat -> nth_error C j = Some a -> nth_error C (S j) = Some b ->
+                  rightSib (gp T (nrow a) (noff a)) <> gp T (nrow b) (noff b).
+
+  Lemma dt_valid y : In y lay -> N.of_nat (nrow y) <= T /\ noff y < 2 ^ (T - N.of_nat (nrow y)).
+  Proof. exact (ng_valid H HO s T Hn63 HTlo HT63 y). Qed.
+
+  Lemma rightSib_le q : rightSib q <= q + 1.
+  Proof. unfold rightSib, or64. rewrite lor_1. destruct (N.even q); lia. Qed.
+
+  (** merging two twins *)
+  Lemma merge_step C i a b : psi C -> notwin_before i C ->
+    nth_error C i = Some a -> nth_error C (S i) = Some b ->
+    rightSib (gp T (nrow a) (noff a)) = gp T (nrow b) (noff b) ->
+    exists C', insertInOrder (firstn i (map gpx C) ++ skipn (S (S i)) (map gpx C))
+                 (Parent (gp T (nrow a) (noff a)) T) = map gpx C' /\
+               psi C' /\ notwin_before i C' /\ S (length C') = length C.
+  Proof.
+    intros P Hnt Ea Eb Etw. destruct (nth_split2 C i a b Ea Eb) as [EC Li].
+    set (pre := firstn i C) in *. set (post := skipn (S (S i)) C) in *.
+    assert (A1 : firstn i (map gpx C) = map gpx pre) by (unfold pre; apply firstn_map).
+    assert (A2 : skipn (S (S i)) (map gpx C) = map gpx post) by (unfold post; apply skipn_map).
+    clearbody pre post.
+    assert (HaC : In a C) by exact (nth_error_In _ _ Ea).
+    assert (HbC : In b C) by exact (nth_error_In _ _ Eb).
+    destruct (ps_node _ P a HaC) as (Ha & (za & Hza & Lza & Uza) & Hax).
+    destruct (ps_node _ P b HbC) as (Hb & _ & Hbx).
+    pose proof (SS_nth _ _ (ps_sorted _ P) i a b Ea Eb) as Hab. unfold pl in Hab.
+    destruct (twins_coord H HO s T Hn63 HTlo HT63 a b Ha Hb Etw) as [->|[Ecb Eva]]; [lia|].
+    pose proof (sib_nonroot a b Ha Hb Ecb) as Ra.
+    destruct (ng_family H HO s a Ha Ra) as (p & sb & Hp & Hsb & _ & Lp & Esb & Ep & _).
+    assert (sb = b) by (apply (ng_coord_eq H HO s sb b Hsb Hb); congruence). subst sb.
+    destruct (coord_eq _ _ _ Ep) as [Epr Epo].
+    destruct (dt_valid a Ha) as [Va1 Va2]. destruct (dt_valid p Hp) as [Vp1 Vp2].
+    destruct (dt_valid b Hb) as [Vb1 Vb2].
+    assert (EP : Parent (gp T (nrow a) (noff a)) T = gp T (nrow p) (noff p)).
+    { unfold gp. rewrite Parent_gpos; [|exact HT63|lia|exact Va2]. rewrite Epr, Epo. f_equal. lia. }
+    assert (Hpb : gp T (nrow b) (noff b) < gp T (nrow p) (noff p)).
+    { unfold gp. destruct (coord_eq _ _ _ Ecb) as [Ebr _].
+      apply gpos_row_mono; [lia|exact Vp1|exact Vb2]. }
+    (* the decomposition of C *)
+    pose proof (ps_sorted _ P) as SC. rewrite EC in SC.
+    destruct (SS_app_elim _ _ _ SC) as (Spre & Srest & Hcross).
+    apply StronglySorted_inv in Srest as [Sb' Halla]. apply StronglySorted_inv in Sb' as [Spost Hallb].
+    rewrite Forall_forall in Halla, Hallb.
+    assert (Hpre_lt : forall y, In y pre -> gp T (nrow y) (noff y) < gp T (nrow a) (noff a)).
+    { intros y Hy. apply (Hcross y a Hy). left. reflexivity. }
+    assert (Hin_pre : forall y, In y pre -> In y C) by (intros y Hy; rewrite EC; apply in_or_app; left; exact Hy).
+    assert (Hin_post : forall y, In y post -> In y C)
+      by (intros y Hy; rewrite EC; apply in_or_app; right; right; right; exact Hy).
+    assert (HpnC : ~ In p C).
+    { intros HpC. apply (ps_disj _ P p a HpC HaC).
+      - intros ->. lia.
+      - rewrite Ep. exact (proj2 (under_sib_par (nrow a) (noff a))). }
+    exists (pre ++ insN p post). split; [|split; [|split]].
+    - rewrite EP, A1, A2. rewrite map_app, insN_map. apply insertInOrder_app.
+      intros y Hy. apply in_map_iff in Hy as (y0 & <- & Hy0). specialize (Hpre_lt y0 Hy0). lia.
+    - constructor.
+      + apply SS_app_intro; [exact Spre| |].
+        * apply insN_sorted; [exact Spost|]. intros y Hy E.
+          apply HpnC. rewrite <- (ng_inj H HO s T Hn63 HTlo HT63 y p (proj1 (ps_node _ P y (Hin_post y Hy))) Hp E).
+          exact (Hin_post y Hy).
+        * intros x y Hx Hy. apply insN_In in Hy as [->|Hy].
+          -- unfold pl. specialize (Hpre_lt x Hx). lia.
+          -- unfold pl. specialize (Hpre_lt x Hx). specialize (Hallb y Hy). unfold pl in Hallb. lia.
+      + intros c Hc. apply in_app_or in Hc as [Hc|Hc]; [exact (ps_node _ P c (Hin_pre c Hc))|].
+        apply insN_In in Hc as [->|Hc]; [|exact (ps_node _ P c (Hin_post c Hc))].
+        split; [exact Hp|]. split.
+        * exists za. split; [exact Hza|]. split; [exact Lza|].
+          rewrite Ep. exact (under_trans _ _ _ (proj2 (under_sib_par (nrow a) (noff a))) Uza).
+        * intros w Hw Lw Uw. rewrite Ep in Uw.
+          assert (Hne : coord w <> (S (nrow a), noff a / 2)).
+          { intros C0. rewrite <- Ep in C0. rewrite (ng_coord_eq H HO s w p Hw Hp C0) in Lw. congruence. }
+          destruct (under_P_split _ _ _ Uw Hne) as [U1|U1]; [exact (Hax w Hw Lw U1)|].
+          rewrite <- Ecb in U1. exact (Hbx w Hw Lw U1).
+      + intros w Hw. destruct (ps_cover _ P w Hw) as (c & Hc & Uc).
+        rewrite EC in Hc. apply in_app_or in Hc as [Hc|[<-|[<-|Hc]]].
+        * exists c. split; [apply in_or_app; left; exact Hc|exact Uc].
+        * exists p. split; [apply in_or_app; right; apply insN_In; left; reflexivity|].
+          rewrite Ep. exact (under_trans _ _ _ (proj2 (under_sib_par (nrow a) (noff a))) Uc).
+        * exists p. split; [apply in_or_app; right; apply insN_In; left; reflexivity|].
+          rewrite Ep. rewrite Ecb in Uc. exact (under_trans _ _ _ (proj1 (under_sib_par (nrow a) (noff a))) Uc).
+        * exists c. split; [apply in_or_app; right; apply insN_In; right; exact Hc|exact Uc].
+      + assert (Hmem : forall c, In c (pre ++ insN p post) -> c = p \/ (In c C /\ c <> a /\ c <> b)).
+        { intros c Hc. apply in_app_or in Hc as [Hc|Hc].
+          - right. split; [exact (Hin_pre c Hc)|]. specialize (Hpre_lt c Hc). split; intros ->; lia.
+          - apply insN_In in Hc as [->|Hc]; [left; reflexivity|right]. split; [exact (Hin_post c Hc)|].
+            specialize (Hallb c Hc). unfold pl in Hallb. split; intros ->; lia. }
+        intros c1 c2 H1 H2 Hne U. destruct (Hmem c1 H1) as [->|(H1C & N1a & N1b)],
+          (Hmem c2 H2) as [->|(H2C & N2a & N2b)].
+        * contradiction.
+        * rewrite Ep in U.
+          assert (Hne2 : coord c2 <> (S (nrow a), noff a / 2)).
+          { intros C0. rewrite <- Ep in C0.
+            apply Hne. symmetry. exact (ng_coord_eq H HO s c2 p (proj1 (ps_node _ P c2 H2C)) Hp C0). }
+          destruct (under_P_split _ _ _ U Hne2) as [U1|U1].
+          -- exact (ps_disj _ P a c2 HaC H2C (fun E => N2a (eq_sym E)) U1).
+          -- rewrite <- Ecb in U1. exact (ps_disj _ P b c2 HbC H2C (fun E => N2b (eq_sym E)) U1).
+        * apply (ps_disj _ P c1 a H1C HaC N1a).
+          rewrite Ep in U. exact (under_trans _ _ _ U (proj2 (under_sib_par (nrow a) (noff a)))).
+        * exact (ps_disj _ P c1 c2 H1C H2C Hne U).
+    - (* no twins before i *)
+      intros j x y Hj Ex Ey.
+      assert (Hjx : nth_error pre j = Some x).
+      { rewrite nth_error_app1 in Ex by lia. exact Ex. }
+      assert (ExC : nth_error C j = Some x).
+      { rewrite EC. rewrite nth_error_app1 by lia. exact Hjx. }
+      destruct (Nat.eq_dec (S j) i) as [Ej|Ej].
+      + (* the last element of the prefix and the first one after it *)
+        rewrite nth_error_app2 in Ey by lia. replace (S j - length pre)%nat with 0%nat in Ey by lia.
+        pose proof (Hpre_lt x (nth_error_In _ _ Hjx)) as Hx.
+        pose proof (rightSib_le (gp T (nrow x) (noff x))) as Hrs.
+        destruct (insN_head p post y Ey) as [->|Ey'].
+        * lia.
+        * pose proof (Hallb y (nth_error_In _ _ Ey')) as Hy. unfold pl in Hy. lia.
+      + assert (EyC : nth_error C (S j) = Some y).
+        { rewrite nth_error_app1 in Ey by lia. rewrite EC. rewrite nth_error_app1 by lia. exact Ey. }
+        exact (Hnt j x y Hj ExC EyC).
+    - assert (EL : length C = length (pre ++ a :: b :: post)) by (rewrite <- EC; reflexivity).
+      rewrite EL, !app_length, insN_length. cbn [length]. lia.
+  Qed.
+
+  Lemma notwin_mono i k C : notwin_before i C -> (forall j, (j < k)%nat -> (S j < length C)%nat -> (j < i)%nat) ->
+    notwin_before k C.
+  Proof.
+    intros Hn Hk j a b Hj Ea Eb. apply (Hn j a b); [|exact Ea|exact Eb].
+    apply Hk; [exact Hj|]. apply nth_error_Some. congruence.
+  Qed.
+
+  Lemma deTwin_loop_psi : forall (fuel i : nat) C, psi C -> notwin_before i C ->
+    (2 * length C + 1 <= fuel + i)%nat ->
+    exists C', deTwin_loop fuel i (map gpx C) T = map gpx C' /\ psi C' /\ notwin_before (length C') C'.
+  Proof.
+    induction fuel as [|f IH]; intros i C P Hnt Hf.
+    - exists C. split; [reflexivity|]. split; [exact P|]. apply (notwin_mono i); [exact Hnt|]. intros j A B. lia.
+    - cbn [deTwin_loop]. rewrite !nth_error_map.
+      destruct (nth_error C i) as [a|] eqn:Ea; cbn [option_map].
+      + destruct (nth_error C (S i)) as [b|] eqn:Eb; cbn [option_map].
+        * destruct (N.eqb_spec (rightSib (gp T (nrow a) (noff a))) (gp T (nrow b) (noff b))) as [Etw|Etw].
+          -- destruct (merge_step C i a b P Hnt Ea Eb Etw) as (C1 & E1 & P1 & N1 & L1).
+             rewrite E1. apply (IH i C1 P1 N1). lia.
+          -- apply (IH (S i) C P); [|lia]. intros j x y Hj Ex Ey.
+             destruct (Nat.eq_dec j i) as [->|Hne]; [|apply (Hnt j x y); [lia|exact Ex|exact Ey]].
+             rewrite Ea in Ex. rewrite Eb in Ey. injection Ex as <-. injection Ey as <-. exact Etw.
+        * exists C. split; [reflexivity|]. split; [exact P|]. apply (notwin_mono i); [exact Hnt|].
+          intros j A B. apply nth_error_None in Eb. lia.
+      + exists C. split; [reflexivity|]. split; [exact P|]. apply (notwin_mono i); [exact Hnt|].
+        intros j A B. apply nth_error_None in Ea. lia.
+  Qed.
+
+  (** in a strictly sorted list an element and its successor by position are neighbours *)
+  Lemma SS_adjacent C a b : StronglySorted pl C -> In a C -> In b C ->
+    gp T (nrow b) (noff b) = gp T (nrow a) (noff a) + 1 ->
+    exists j b', nth_error C j = Some a /\ nth_error C (S j) = Some b' /\
+                 gp T (nrow b') (noff b') = gp T (nrow b) (noff b).
+  Proof.
+    intros Ss Ha Hb E. destruct (in_split a C Ha) as (l1 & l2 & ->).
+    destruct (SS_app_elim _ _ _ Ss) as (_ & S2 & Hc). apply StronglySorted_inv in S2 as [S2 Hall].
+    rewrite Forall_forall in Hall.
+    assert (Hb2 : In b l2).
+    { apply in_app_or in Hb as [Hb|[->|Hb]]; [|lia|exact Hb].
+      specialize (Hc b a Hb (or_introl eq_refl)). unfold pl in Hc. lia. }
+    destruct l2 as [|b' l2']; [destruct Hb2|].
+    exists (length l1), b'. split; [|split].
+    - rewrite nth_error_app2 by lia. rewrite Nat.sub_diag. reflexivity.
+    - rewrite nth_error_app2 by lia. replace (S (length l1) - length l1)%nat with 1%nat by lia. reflexivity.
+    - pose proof (Hall b' (or_introl eq_refl)) as H1. unfold pl in H1.
+      destruct Hb2 as [->|Hb2]; [reflexivity|].
+      apply StronglySorted_inv in S2 as [_ Hall2]. rewrite Forall_forall in Hall2.
+      specialize (Hall2 b Hb2). unfold pl in Hall2. lia.
+  Qed.
+
+  (** ** the general case *)
+  Theorem detwinned_general ls : Permutation xs ls -> StronglySorted (npl H s) ls ->
+    (forall x, In x xs -> In x lay /\ nleaf x = true) ->
+    exists ys, detwinned H HO s T xs ls ys.
+  Proof.
+    intros Pls Sls Hxs.
+    assert (Hls : forall x, In x ls -> In x lay /\ nleaf x = true /\ In x xs).
+    { intros x Hx. apply (Permutation_in _ (Permutation_sym Pls)) in Hx. destruct (Hxs x Hx). auto. }
+    assert (P0 : psi ls).
+    { constructor.
+      - clear - Sls Hls Hn63 HTlo HT63. induction Sls as [|a l S IH Hall]; [constructor|].
+        constructor; [apply IH; intros x Hx; apply Hls; right; exact Hx|].
+        rewrite Forall_forall in *. intros b Hb.
+        exact (proj1 (npl_rows H HO s T Hn63 HTlo HT63 a b (proj1 (Hls a (or_introl eq_refl)))
+                        (proj1 (Hls b (or_intror Hb))) (Hall b Hb))).
+      - intros c Hc. destruct (Hls c Hc) as (Hcl & Lc & Hcx). split; [exact Hcl|]. split.
+        + exists c. split; [exact Hcl|]. split; [exact Lc|apply under_refl].
+        + intros w Hw Lw U. rewrite (ng_leaf_bottom H HO s T Hn63 HTlo HT63 c w Hcl Hw Lc U). exact Hcx.
+      - intros w Hw. exists w. split; [exact (Permutation_in _ Pls Hw)|apply under_refl].
+      - intros c1 c2 H1 H2 Hne U. destruct (Hls c1 H1) as (Hc1 & L1 & _). destruct (Hls c2 H2) as (Hc2 & _).
+        apply Hne. symmetry. exact (ng_leaf_bottom H HO s T Hn63 HTlo HT63 c1 c2 Hc1 Hc2 L1 U). }
+    destruct (deTwin_loop_psi (2 * length (map gpx ls) + 2) 0 ls P0) as (C & EC & PC & NC).
+    { intros j a b Hj. lia. }
+    { rewrite map_length. lia. }
+    exists C. split; [exact EC|]. split; [|split].
+    - intros y Hy. destruct (ps_node _ PC y Hy) as (A & B & _). auto.
+    - intros w Hw Lw. split.
+      + intros (y & Hy & U). exact (proj2 (proj2 (ps_node _ PC y Hy)) w Hw Lw U).
+      + intros Hwx. exact (ps_cover _ PC w Hwx).
+    - apply (SS_FOP _ _ _ (ps_sorted _ PC)). intros a b Ha Hb Hlt. unfold pl in Hlt.
+      destruct (ps_node _ PC a Ha) as (Hal & _). destruct (ps_node _ PC b Hb) as (Hbl & _).
+      assert (Hne : a <> b) by (intros ->; lia).
+      destruct (dt_valid a Hal) as [A1 A2]. destruct (dt_valid b Hbl) as [B1 B2].
+      split; [|split; [|split]].
+      + exact (ps_disj _ PC a b Ha Hb Hne).
+      + exact (ps_disj _ PC b a Hb Ha (fun E => Hne (eq_sym E))).
+      + intros Ec. destruct (coord_eq _ _ _ Ec) as [Er Eo].
+        assert (Hsucc : gp T (nrow b) (noff b) = gp T (nrow a) (noff a) + 1).
+        { unfold gp in *. rewrite Er, Eo in *. pose proof (lxor_1 (noff a)) as Hx.
+          unfold gpos in *. destruct (N.even (noff a)) eqn:Ev; [lia|]. pose proof (odd_nz _ Ev). lia. }
+        destruct (SS_adjacent C a b (ps_sorted _ PC) Ha Hb Hsucc) as (j & b' & Ej & Ej' & Eb').
+        assert (Hjl : (j < length C)%nat) by (apply nth_error_Some; congruence).
+        apply (NC j a b' Hjl Ej Ej').
+        rewrite Eb', Hsucc. unfold gp in *. rewrite Er, Eo in *.
+        rewrite rightSib_gpos by exact A1. pose proof (lor_1 (noff a)) as Hl. pose proof (lxor_1 (noff a)) as Hx.
+        unfold gpos in *. destruct (N.even (noff a)) eqn:Ev; [lia|]. pose proof (odd_nz _ Ev). lia.
+      + unfold gp in Hlt. apply gpos_lt_lex in Hlt; try assumption. lia.
+  Qed.
+End DeTwinGen.
+
+Section DeleteLeaves.
+  Variable H : Type.
+  Variable HO : ops H.
+  Hypothesis HOK : ops_ok HO.
+
+  (** ** G2: any set of distinct remembered leaves, the hashes and the targets in any order *)
+  Theorem mm_modify_delete_leaves s R m xs dels targets proof : Inv HO s R m -> NoDup xs ->
+    (forall x, In x xs -> In x (layout HO s) /\ nleaf x = true /\ In (nhash x) R) ->
+    (forall h, In h dels <-> exists x, In x xs /\ nhash x = h) ->
+    Permutation targets (map (npos (rows_of (num_leaves s))) xs) ->
+    exists m', mm_modify HO m [] dels targets proof = Some m' /\
+               Inv HO (kill HO dels s) (filter (fun h => negb (memH HO h dels)) R) m'.
+  Proof.
+    intros I Hnd Hxs Hdels Hperm.
+    apply (remove_leaves H HO HOK s R m xs dels targets proof I Hnd Hxs Hdels Hperm).
+    intros ls Pls Sls.
+    apply (detwinned_general H HO s (ms_total m) (pi_n63 H HO s R R m I) (pi_Tlo H HO s R R m I) (i_T63 I)
+             xs ls Pls Sls).
+    intros x Hx. destruct (Hxs x Hx) as (A & B & _). auto.
+  Qed.
+End DeleteLeaves.
+
+(** * 20. The deleted leaves given by their hashes: the targets as the map forest reports them *)
+Section DeleteHashes.
+  Variable H : Type.
+  Variable HO : ops H.
+  Hypothesis HOK : ops_ok HO.
+
+  Lemma leaf_positions s R m : Inv HO s R m -> forall dels, (forall h, In h dels -> In h R) ->
+    exists ts, map (@nhash H) ts = dels /\
+      (forall x, In x ts -> In x (layout HO s) /\ nleaf x = true) /\
+      GetLeafHashPositions HO m dels = map (npos (rows_of (num_leaves s))) ts.
+  Proof.
+    intros I. pose proof (Inv_consistent H HO HOK s R m I) as Hc.
+    induction dels as [|h dels IH]; intros Hsub.
+    - exists []. split; [reflexivity|]. split; [intros y []|reflexivity].
+    - destruct (IH (fun h' Hh' => Hsub h' (or_intror Hh'))) as (ts & Ets & Hts & Epos).
+      pose proof (Hsub h (or_introl eq_refl)) as Hh.
+      destruct (live_leaf_in_layout H HO s h (i_Rn I h Hh)) as (x & Hx & Lx & Ex).
+      exists (x :: ts). split; [cbn [map]; congruence|]. split.
+      + intros y [<-|Hy]; [auto|exact (Hts y Hy)].
+      + unfold GetLeafHashPositions in *. cbn [map]. rewrite Epos. f_equal.
+        unfold GetLeafPosition.
+        assert (Ec : cached_get HO (ms_cached m) h = Some (gp (ms_total m) (nrow x) (noff x))).
+        { apply (i_cached I). split; [exact Hh|]. exists x. auto. }
+        rewrite Ec. exact (translate_node H HO s R m Hc x Hx).
+  Qed.
+
+  Theorem mm_modify_delete_hashes s R m dels proof : Inv HO s R m -> NoDup dels ->
+    (forall h, In h dels -> In h R) ->
+    exists m', mm_modify HO m [] dels (GetLeafHashPositions HO m dels) proof = Some m' /\
+               Inv HO (kill HO dels s) (filter (fun h => negb (memH HO h dels)) R) m'.
+  Proof.
+    intros I Hnd Hsub. destruct (leaf_positions s R m I dels Hsub) as (ts & Ets & Hts & Epos).
+    rewrite Epos.
+    apply (mm_modify_delete_leaves H HO HOK s R m ts dels _ proof I).
+    - rewrite <- Ets in Hnd. exact (NoDup_map_inv _ _ Hnd).
+    - intros x Hx. destruct (Hts x Hx) as [A B]. split; [exact A|]. split; [exact B|].
+      apply Hsub. rewrite <- Ets. apply in_map, Hx.
+    - intros h. rewrite <- Ets, in_map_iff. split; intros (x & A & B); exists x; auto.
+    - apply Permutation_refl.
+  Qed.
+End DeleteHashes.
+
+(** * 21. A decision procedure for the invariant (sound), and a worked example *)
+Section InvDecide.
+  Variable H : Type.
+  Variable HO : ops H.
+  Hypothesis HOK : ops_ok HO.
+
+  Fixpoint nodupN (l : list N) : bool :=
+    match l with [] => true | x :: t => negb (memN x t) && nodupN t end.
+  Fixpoint nodupH (l : list H) : bool :=
+    match l with [] => true | x :: t => negb (memH HO x t) && nodupH t end.
+
+  Lemma nodupN_sound l : nodupN l = true -> NoDup l.
+  Proof.
+    induction l as [|x l IH]; intros E; [constructor|]. cbn [nodupN] in E.
+    apply andb_true_iff in E as [E1 E2]. constructor; [|exact (IH E2)].
+    intros Hin. apply RefTheory.memN_In in Hin. rewrite Hin in E1. discriminate.
+  Qed.
+
+  Lemma nodupH_sound l : nodupH l = true -> NoDup l.
+  Proof.
+    induction l as [|x l IH]; intros E; [constructor|]. cbn [nodupH] in E.
+    apply andb_true_iff in E as [E1 E2]. constructor; [|exact (IH E2)].
+    intros Hin. apply (memH_In H HO HOK) in Hin. rewrite Hin in E1. discriminate.
+  Qed.
+
+  Definition Invb (s : slots H) (R : list H) (m : mstate H) : bool :=
+    let lay := layout HO s in
+    let T := ms_total m in
+    (ms_n m =? num_leaves s) && (ms_n m <=? 2 ^ 63) && (TreeRows (ms_n m) <=? T) && (T <=? 63)
+    && nodupH (live s) && nodupN (map fst (ms_nodes m)) && nodupH (map fst (ms_cached m))
+    && forallb (fun e : N * (H * bool) =>
+                  existsb (fun x => (fst e =? gp T (nrow x) (noff x)) &&
+                                    op_eqb HO (nhash x) (fst (snd e))) lay) (ms_nodes m)
+    && forallb (fun h => memH HO h (live s)) R
+    && forallb (fun e : H * N =>
+                  memH HO (fst e) R &&
+                  existsb (fun x => nleaf x && op_eqb HO (nhash x) (fst e) &&
+                                    (snd e =? gp T (nrow x) (noff x))) lay) (ms_cached m)
+    && forallb (fun h => cached_has HO (ms_cached m) h) R
+    && forallb (fun x => negb (nroot x) || storedb m (gp T (nrow x) (noff x))) lay
+    && forallb (fun x => negb (nleaf x && memH HO (nhash x) R) ||
+                         match nodes_get (ms_nodes m) (gp T (nrow x) (noff x)) with
+                         | Some (h', true) => op_eqb HO h' (nhash x)
+                         | _ => false
+                         end) lay
+    && forallb (fun x => negb (nleaf x && memH HO (nhash x) R) ||
+                         forallb (fun k : nat =>
+                                    storedb m (gp T (nrow x + k) (N.lxor (noff x / 2 ^ N.of_nat k) 1)))
+                                 (seq 0 (ntree x - nrow x))) lay.
+
+  Theorem Invb_sound s R m :
+    (forall h a b, In (Some h) s -> h <> op_hash2 HO a b) ->
+    (forall h, In (Some h) s -> h <> op_empty HO) ->
+    Invb s R m = true -> Inv HO s R m.
+  Proof.
+    intros Hnn Hnz. unfold Invb. cbv zeta. rewrite !andb_true_iff.
+    intros (((((((((((((En & En63) & Erows) & ET) & Elive) & Ekeys) & Eckeys) & Etrue) & ER) & Eca) & ERc)
+              & Eroots) & Eleaf) & Esibs).
+    rewrite forallb_forall in Etrue, ER, Eca, ERc, Eroots, Eleaf, Esibs.
+    pose proof (nodupH_sound _ Elive) as Hlnd. pose proof (nodupN_sound _ Ekeys) as Hk.
+    pose proof (nodupH_sound _ Eckeys) as Hck.
+    assert (Hstored : forall p, storedb m p = true -> nodes_get (ms_nodes m) p <> None).
+    { intros p. unfold storedb. destruct (nodes_get (ms_nodes m) p); [discriminate|discriminate]. }
+    assert (HRlive : forall h, In h R -> In (Some h) s).
+    { intros h Hh. apply (live_in H). apply (memH_In H HO HOK). exact (ER h Hh). }
+    constructor.
+    - apply N.eqb_eq, En.
+    - apply N.leb_le, En63.
+    - apply N.leb_le, Erows.
+    - apply N.leb_le, ET.
+    - exact Hlnd.
+    - exact Hnn.
+    - exact Hnz.
+    - exact Hk.
+    - exact Hck.
+    - intros p h b E. apply (nodes_get_In H) in E. specialize (Etrue _ E). cbn [fst snd] in Etrue.
+      apply existsb_exists in Etrue as (x & Hx & Ex). apply andb_true_iff in Ex as [E1 E2].
+      apply N.eqb_eq in E1. apply HOK in E2. exists x. auto.
+    - exact HRlive.
+    - auto.
+    - intros h p. split.
+      + intros E. apply (cached_get_In H HO HOK) in E. specialize (Eca _ E). cbn [fst snd] in Eca.
+        apply andb_true_iff in Eca as [E1 E2]. apply (memH_In H HO HOK) in E1. split; [exact E1|].
+        apply existsb_exists in E2 as (x & Hx & Ex). apply andb_true_iff in Ex as [Ex E3].
+        apply andb_true_iff in Ex as [E4 E5]. apply HOK in E5. apply N.eqb_eq in E3. exists x. auto.
+      + intros (Hh & x & Hx & Lx & Ex & ->). specialize (ERc h Hh). unfold cached_has in ERc.
+        destruct (cached_get HO (ms_cached m) h) as [p'|] eqn:Ec; [|discriminate]. f_equal.
+        pose proof Ec as Ec'. apply (cached_get_In H HO HOK) in Ec'. specialize (Eca _ Ec'). cbn [fst snd] in Eca.
+        apply andb_true_iff in Eca as [_ E2].
+        apply existsb_exists in E2 as (x' & Hx' & Ex'). apply andb_true_iff in Ex' as [Ex' E3].
+        apply andb_true_iff in Ex' as [E4 E5]. apply HOK in E5. apply N.eqb_eq in E3.
+        rewrite (live_leaf_unique H HO s x x' Hlnd Hx Hx' Lx E4 ltac:(congruence)). exact E3.
+    - intros x Hx Rx. specialize (Eroots x Hx). rewrite Rx in Eroots. cbn [negb orb] in Eroots.
+      apply Hstored, Eroots.
+    - intros x Hx Lx Hh. specialize (Eleaf x Hx). apply (memH_In H HO HOK) in Hh. rewrite Lx, Hh in Eleaf.
+      cbn [andb negb orb] in Eleaf.
+      destruct (nodes_get (ms_nodes m) (gp (ms_total m) (nrow x) (noff x))) as [[h' [|]]|]; try discriminate.
+      apply HOK in Eleaf. subst h'. reflexivity.
+    - intros x Hx Lx Hh k Hkt. specialize (Esibs x Hx). apply (memH_In H HO HOK) in Hh. rewrite Lx, Hh in Esibs.
+      cbn [andb negb orb] in Esibs. rewrite forallb_forall in Esibs. apply Hstored, Esibs.
+      apply in_seq. lia.
+  Qed.
+End InvDecide.
+
+(** Example: 7 leaves (the trees of 4, 2 and 1 leaves), the leaves 2, 3 and 6 remembered, the forest
+    allocated with 4 rows (minimum 3): the state after adding them satisfies the invariant, and so
+    do the states after deleting [Atom 3], and then [Atom 6; Atom 2] (in this order of the hashes). *)
+From Utreexo Require Import Spec.Term.
+
+Definition mr_ex_s : slots term := map (fun i => Some (Atom (N.of_nat i))) (seq 1 7).
+Definition mr_ex_R : list term := [Atom 2; Atom 3; Atom 6].
+Definition mr_ex_m : mstate term :=
+  match mm_modify term_ops (mkM [] [] 0 4 false)
+          (map (fun i => (Atom (N.of_nat i), orb (orb (Nat.eqb i 2) (Nat.eqb i 3)) (Nat.eqb i 6))) (seq 1 7))
+          [] [] [] with
+  | Some m => m
+  | None => mkM [] [] 0 4 false
+  end.
+
+Lemma mr_ex_atoms : (forall h a b, In (Some h) mr_ex_s -> h <> op_hash2 term_ops a b) /\
+                    (forall h, In (Some h) mr_ex_s -> h <> op_empty term_ops).
+Proof.
+  split.
+  - intros h a b Hin. cbn in Hin. repeat (destruct Hin as [E|Hin]; [injection E as <-; discriminate|]). destruct Hin.
+  - intros h Hin. cbn in Hin. repeat (destruct Hin as [E|Hin]; [injection E as <-; discriminate|]). destruct Hin.
+Qed.
+
+Example mr_ex_Inv : Inv term_ops mr_ex_s mr_ex_R mr_ex_m.
+Proof.
+  apply (Invb_sound term term_ops term_ops_ok); [exact (proj1 mr_ex_atoms)|exact (proj2 mr_ex_atoms)|].
+  vm_compute. reflexivity.
+Qed.
+
+Example mr_ex_delete :
+  exists m1 m2,
+    mm_modify term_ops mr_ex_m [] [Atom 3] (GetLeafHashPositions term_ops mr_ex_m [Atom 3]) [] = Some m1 /\
+    Inv term_ops (kill term_ops [Atom 3] mr_ex_s) [Atom 2; Atom 6] m1 /\
+    mm_modify term_ops m1 [] [Atom 6; Atom 2] (GetLeafHashPositions term_ops m1 [Atom 6; Atom 2]) [] = Some m2 /\
+    Inv term_ops (kill term_ops [Atom 6; Atom 2] (kill term_ops [Atom 3] mr_ex_s)) [] m2 /\
+    consistent term_ops (kill term_ops [Atom 6; Atom 2] (kill term_ops [Atom 3] mr_ex_s)) [] m2.
+Proof.
+  destruct (mm_modify_delete_hashes term term_ops term_ops_ok mr_ex_s mr_ex_R mr_ex_m [Atom 3] [] mr_ex_Inv)
+    as (m1 & E1 & I1).
+  { repeat constructor. intros []. }
+  { intros h [<-|[]]. cbn. auto. }
+  change (filter (fun h => negb (memH term_ops h [Atom 3])) mr_ex_R) with [Atom 2; Atom 6] in I1.
+  destruct (mm_modify_delete_hashes term term_ops term_ops_ok _ _ m1 [Atom 6; Atom 2] [] I1) as (m2 & E2 & I2).
+  { repeat constructor; cbn; intuition discriminate. }
+  { intros h [<-|[<-|[]]]; cbn; auto. }
+  change (filter (fun h => negb (memH term_ops h [Atom 6; Atom 2])) [Atom 2; Atom 6]) with (@nil term) in I2.
+  exists m1, m2. split; [exact E1|]. split; [exact I1|]. split; [exact E2|]. split; [exact I2|].
+  exact (Inv_consistent term term_ops term_ops_ok _ _ _ I2).
+Qed.
+
+(** every theorem is axiom-free *)
+Print Assumptions Inv_consistent.
+Print Assumptions removeSingle_node.
+Print Assumptions mm_modify_delete1.
+Print Assumptions mm_modify_delete_leaves.
+Print Assumptions mm_modify_delete_hashes.
+Print Assumptions mr_ex_delete.
